@@ -211,6 +211,17 @@ class System:
         # one selector object per selection for the life of the system, as the tools hold one --frame-slice object for
         # every frame array of every logical file they read
         self.selectors = {}
+        self.chsets = {}
+
+    def channel_set(self, chs):
+        """The caller's set object for a channel list: one object per list for the life of the system (a tool that keeps its
+        --channels set and hands it to every populate call)."""
+        if chs is None:
+            return None
+        key = repr(chs)
+        if key not in self.chsets:
+            self.chsets[key] = set(chs)
+        return self.chsets[key]
 
     def selector(self, sel):
         key = repr(sel)
@@ -224,7 +235,8 @@ class System:
         arrays = tuple((len(ch.array), isinstance(ch.array, np.ma.MaskedArray))
                        for fa in self.lf.log_pass.frame_arrays for ch in fa.channels)
         sels = tuple((k, bfs.generic_state(v, depth=1)) for k, v in sorted(self.selectors.items()) if v is not None)
-        return arrays + (self.f.tell(), vr.position, lrsh.position, lrsh.attributes.attributes, sels)
+        sets = tuple((k, tuple(sorted(map(repr, v)))) for k, v in sorted(self.chsets.items()))
+        return arrays + (self.f.tell(), vr.position, lrsh.position, lrsh.attributes.attributes, sels, sets)
 
 
 def step(system, op, check):
@@ -236,7 +248,7 @@ def step(system, op, check):
     chsel = None if chs is None else set(chs)
     selector = system.selector(sel)
     try:
-        got_n = system.lf.populate_frame_array(fa, selector, None if chsel is None else set(chsel))
+        got_n = system.lf.populate_frame_array(fa, selector, system.channel_set(chs))
     except Exception as err:  # noqa
         return [({'kind': 'populate_raises', 'exc': type(err).__name__}, 'populate(%r,%r,%r): %s: %s' % (ti, sel, chs, type(err).__name__, err))]
     if not check:
@@ -476,7 +488,7 @@ H_SELS = [None, ['slice', 1, None, None], ['slice', None, None, 2], ['slice', 0,
 
 def gen_H(tier):
     t0 = [ch('X', 7, [1]), ch('A', 13, [3]), ch('B', 2, [1])]
-    t1 = [ch('TIME', 17, [1]), ch('C', 5, [2, 2])]
+    t1 = [ch('TIME', 17, [1]), ch('X', 2, [1], copy=1), ch('C', 5, [2, 2])]     # the first type's index name is an ordinary channel here
     for n0, n1, layout in [(3, 2, 'one'), (4, 3, 'split'), (2, 2, 'one')]:
         lp = {'types': [{'name': 'FT0', 'channels': t0, 'n': n0}, {'name': 'FT1', 'channels': t1, 'n': n1}],
               'order': list(itertools.islice(itertools.cycle([0, 1]), 2 * min(n0, n1))) + [0] * (n0 - min(n0, n1)) + [1] * (n1 - min(n0, n1)),
